@@ -232,6 +232,11 @@ fn ptr(g: &mut ObjectGcGuard) -> NonNull<CaoLangObject> {
     NonNull::from(&mut **g)
 }
 
+thread_local! {
+    static GROWN_HISTORY: std::cell::Cell<bool> = const { std::cell::Cell::new(false) };
+    static PAIR_NO: std::cell::Cell<u64> = const { std::cell::Cell::new(0) };
+}
+
 /// Builds the value; the guards keep every object protected from the collector for the case.
 fn build<'a>(vm: &mut Vm<'a, ()>, t: &T, guards: &mut Guards) -> Value {
     let mut g = match t {
@@ -244,6 +249,13 @@ fn build<'a>(vm: &mut Vm<'a, ()>, t: &T, guards: &mut Guards) -> Value {
             let kv: Vec<(Value, Value)> = es.iter().map(|(k, v)| (build(vm, k, guards), build(vm, v, guards))).collect();
             let mut g = vm.init_table().unwrap();
             let table = g.as_table_mut().unwrap();
+            // GROWN_HISTORY: the table first holds 40 other keys that are removed again, so its bucket array has
+            // another capacity (and its entries another bucket order) than the same table built directly; contents
+            // and insertion order are the same, so equality, hash and order must not notice
+            if GROWN_HISTORY.with(|c| c.get()) {
+                for i in 0..40 { table.insert(Value::Integer(7_000_000 + i), Value::Nil).unwrap(); }
+                for i in 0..40 { table.remove(Value::Integer(7_000_000 + i)).unwrap(); }
+            }
             for (k, v) in kv {
                 table.insert(k, v).unwrap();
             }
@@ -354,13 +366,18 @@ fn shape(t: &T, as_key: bool, s: &mut Shape) {
 fn is_num(t: &T) -> bool { matches!(t, T::Int(_) | T::Real(_)) }
 
 fn pair_case(w: &mut CaseWriter, ta: &T, tb: &T) {
+    if PAIR_NO.with(|c| c.get()) % 2 == 1 && matches!(tb, T::Table(_)) { w.count("pair.table_with_grown_history"); }
     out::describe_current(&format!("C19 pair {:?} / {:?}", ta, tb));
     let r = std::panic::catch_unwind(|| {
         let mut vm = Vm::new(()).unwrap();
         let mut guards = Guards::default();
         let mut ids = Ids::default();
         let a = build(&mut vm, ta, &mut guards);
+        // every other pair: the tables of the right-hand value have a grown-and-shrunk history
+        let no = PAIR_NO.with(|c| { c.set(c.get() + 1); c.get() });
+        GROWN_HISTORY.with(|c| c.set(no % 2 == 0));
         let b = build(&mut vm, tb, &mut guards);
+        GROWN_HISTORY.with(|c| c.set(false));
         let (da, db) = (dump(a, &mut ids), dump(b, &mut ids));
         let (eab, eba) = (a == b, b == a);
         let (cab, cba) = (a.partial_cmp(&b), b.partial_cmp(&a));
